@@ -172,6 +172,37 @@ class DictV(V):
         return 'DictV(%r)' % (self.items,)
 
 
+class ChainMapV(DictV):
+    """collections.ChainMap over known mappings: reads see the first mapping that has the key (keys in the order ChainMap iterates:
+    the last mapping's keys first), writes go to the first mapping"""
+    __slots__ = ('maps',)
+
+    def __init__(self, maps):
+        self.maps = list(maps) or [DictV([])]
+
+    @property
+    def items(self):
+        order = []
+        for mp in reversed(self.maps):
+            for k, _ in mp.items:
+                if not any(DictV._same_key(k, k2) for k2 in order):
+                    order.append(k)
+        out = []
+        for k in order:
+            for mp in self.maps:
+                v = mp.get(k)
+                if v is not None:
+                    out.append((k, v))
+                    break
+        return out
+
+    def set(self, key, value):
+        self.maps[0].set(key, value)
+
+    def __repr__(self):
+        return 'ChainMapV(%d maps)' % len(self.maps)
+
+
 class SetV(V):
     __slots__ = ('items',)
 
@@ -1210,6 +1241,10 @@ class Interp:
                     return self.call_function(FuncV(val_), [obj], {}, n)
                 return val_
             raise Raised('AttributeError: %s.%s' % (obj.cls.name, attr), getattr(n, 'lineno', 0))
+        if isinstance(obj, ChainMapV) and attr == 'maps':
+            return ListV(list(obj.maps))        # (a copy of the list of mappings; the mappings themselves are the live ones)
+        if isinstance(obj, ChainMapV) and attr == 'parents':
+            return ChainMapV(list(obj.maps[1:]))
         if isinstance(obj, (DictV, SetV, StringIOV)):
             return BoundV(obj, attr)
         if isinstance(obj, AnnotV):
@@ -1928,6 +1963,18 @@ class Interp:
             if meth is None:
                 raise Undecided('method %s of %s' % (name, obj.cls.name))
             return self.call_function(FuncV(meth), [obj] + list(args), dict(kwargs), node)
+        if isinstance(obj, ChainMapV):
+            if name == 'new_child':
+                child = args[0] if args else kwargs.get('m')
+                if child is None or (isinstance(child, Const) and child.v is None):
+                    child = DictV([])
+                if not isinstance(child, DictV):
+                    raise Undecided('ChainMap.new_child(%s)' % _prov(child))
+                return ChainMapV([child] + list(obj.maps))
+            if name in ('pop', 'clear', 'update', 'setdefault', 'popitem'):
+                return self.call_method(obj.maps[0], name, args, kwargs, node)
+            if name == 'copy':
+                return ChainMapV([DictV(list(obj.maps[0].items))] + list(obj.maps[1:]))
         if isinstance(obj, DictV):
             if name == 'keys':
                 return ListV([k for k, _ in obj.items])
@@ -2813,6 +2860,11 @@ class Interp:
             if self.decide('%s < %d' % (_prov(cnt), len(items))):
                 return ListV(items[:-1], lazy=True)
         return ListV(items, lazy=True)
+
+    def p_ChainMap(self, a, k, n):
+        if k or not all(isinstance(x, DictV) for x in a):
+            raise Undecided('ChainMap(%s)' % ','.join(_prov(x) for x in a))
+        return ChainMapV(list(a))
 
     def p_StringIO(self, a, k, n):
         if not getattr(self, 'concrete_context', False) or k or len(a) > 1:
